@@ -74,6 +74,8 @@ JudgeC03(h) ==
   /\ MaxQs(h) \cup Sends(h, "app") \cup Sends(h, "app2") \cup Recvs(h, "app") \cup Recvs(h, "app2") # {}
   /\ \A i \in MaxQs(h) : MaxOk(h[i])
   /\ \A i \in Sends(h, "app") \cup Sends(h, "app2") : SendOk(h[i])
+  \* datagrams of other sessions never disturb this one: the liveness probe of the scenario succeeds
+  /\ \A i \in Idx(h) : IsOp(h[i], "app", "accept_uni") => h[i].res = "ok"
   /\ IF h[1].peer = "raw" THEN PeerRxOk(h) /\ FromPeer(h, "app")
      ELSE FromApp(h, "app", "app2") /\ FromApp(h, "app2", "app")
 
